@@ -128,7 +128,7 @@ class BinaryNormalizedEntropy(Metric[torch.Tensor]):
         Returns:
             Tensor: The return value of binary normalized entropy for each task (num_tasks,).
         """
-        if torch.any(self.num_examples == 0.0):
+        if torch.all(self.num_examples == 0.0):
             return torch.empty(0)
 
         baseline_entropy = _baseline_update(self.num_positive, self.num_examples)
